@@ -334,6 +334,11 @@ func (h *FBDNSDB) Reload(s ReloadSignal) (err error) {
 	h.reloadMu.Lock()
 	defer h.reloadMu.Unlock()
 
+	if h.dnsdb == nil {
+		// reload signals are consumed from the moment the handler exists, Load may not have succeeded (yet)
+		return errors.New("DB is not loaded, nothing to reload")
+	}
+
 	switch s.Kind {
 	case FullReload:
 		if s.Payload == "" {
